@@ -258,7 +258,15 @@ func (c *FCGIClient) writePairs(recType uint8, pairs map[string]string) error {
 		if m > maxWrite {
 			// param data size exceed 65535 bytes"
 			vl := maxWrite - 8 - len(k)
-			v = v[:vl]
+			if vl < 0 {
+				// the name alone is longer than a record: no room for the value
+				// (a negative bound would panic, e.g. on an oversized request
+				// header name arriving as HTTP_*)
+				vl = 0
+			}
+			if vl < len(v) {
+				v = v[:vl]
+			}
 		}
 		n := encodeSize(b, uint32(len(k)))
 		n += encodeSize(b[n:], uint32(len(v)))
